@@ -90,6 +90,9 @@ impl InfixOpManager {
                 RIGHT,
                 Arc::new(move |left, right| {
                     let (mut a, b) = (left.integer()?, right.integer()?);
+                    if (op == "<<=" || op == ">>=") && !(0..=63).contains(&b) {
+                        return Err(Error::InvalidShiftCount(b));
+                    }
                     match op {
                         "<<=" => a <<= b,
                         ">>=" => a >>= b,
@@ -168,6 +171,9 @@ impl InfixOpManager {
                 LEFT,
                 Arc::new(move |left, right| {
                     let (mut a, b) = (left.integer()?, right.integer()?);
+                    if (op == "<<" || op == ">>") && !(0..=63).contains(&b) {
+                        return Err(Error::InvalidShiftCount(b));
+                    }
                     match op {
                         "|" => a |= b,
                         "^" => a ^= b,
